@@ -74,6 +74,7 @@ func c18Worker(args []string) int {
 	thorough := fs.Bool("thorough", false, "")
 	deadline := fs.Int64("deadline", 0, "")
 	outdir := fs.String("out", "/verif/replays", "")
+	locked := fs.Bool("locked", false, "C09 profile: generic structural entry points on a locked world")
 	fs.Parse(args)
 	out := bufio.NewWriter(os.Stdout)
 	defer out.Flush()
@@ -83,7 +84,7 @@ func c18Worker(args []string) int {
 		if *deadline > 0 && time.Now().Unix() >= *deadline {
 			break
 		}
-		tr := GenC18Trace(Mix(*seed, uint64(k)), *thorough)
+		tr := genC18Trace(Mix(*seed, uint64(k)), *thorough, *locked)
 		v, r := RunC18(tr)
 		sum.Runs++
 		sum.Steps += len(tr.Steps)
@@ -100,6 +101,10 @@ func c18Worker(args []string) int {
 		if v == nil {
 			continue
 		}
+		if *locked && !contains(v.Also, "lock-not-enforced") {
+			sum.Stats["foreign:"+v.Class]++
+			continue
+		}
 		small := shrinkC18(tr)
 		v2, r2 := RunC18(small)
 		if v2 == nil {
@@ -111,7 +116,7 @@ func c18Worker(args []string) int {
 		}
 		small.Violation, small.Concrete = v2, r2.Concrete
 		os.MkdirAll(*outdir, 0o755)
-		path := filepath.Join(*outdir, fmt.Sprintf("C18-%d.json", tr.Seed))
+		path := filepath.Join(*outdir, fmt.Sprintf("%s-generic-%d.json", tr.Property, tr.Seed))
 		b, _ := json.MarshalIndent(small, "", " ")
 		os.WriteFile(path, b, 0o644)
 		b, _ = json.Marshal(c19Viol{K: k, Class: v2.Class, Msg: v2.Msg, File: path})
@@ -148,7 +153,11 @@ func replayC18(path string, quiet bool) int {
 		return 0
 	}
 	fmt.Printf("replay: %s\n", v.Error())
-	fmt.Printf("VIOLATION property=C18 replay=%s\n", path)
+	prop := tr.Property
+	if prop == "" {
+		prop = "C18"
+	}
+	fmt.Printf("VIOLATION property=%s replay=%s\n", prop, path)
 	return 1
 }
 
@@ -163,8 +172,22 @@ func specialC18(args []string) int {
 	runs := fs.Int("runs", 0, "")
 	budget := fs.Int("budget", 0, "")
 	outdir := fs.String("out", "/verif/replays", "")
+	prop := fs.String("prop", "C18", "C18, or C09 for the locked-world profile (evidence is merged into the existing file)")
 	fs.Parse(args)
+	locked := *prop == "C09"
 	thorough := *tier == "thorough"
+	if *runs == 0 && locked {
+		*runs = 40000
+		if thorough {
+			*runs = 400000
+		}
+	}
+	if *budget == 0 && locked {
+		*budget = 15
+		if thorough {
+			*budget = 120
+		}
+	}
 	if *runs == 0 {
 		*runs = 150000
 		if thorough {
@@ -195,6 +218,9 @@ func specialC18(args []string) int {
 				"-deadline", fmt.Sprint(deadline), "-out", *outdir}
 			if thorough {
 				a = append(a, "-thorough")
+			}
+			if locked {
+				a = append(a, "-locked")
 			}
 			cmd := exec.Command(bin, a...)
 			cmd.Env = append(os.Environ(), "GOMAXPROCS=2")
@@ -243,9 +269,9 @@ func specialC18(args []string) int {
 		}
 		c := exec.Command(bin, "replay", "-q", v.File)
 		outb, _ := c.CombinedOutput()
-		if strings.Contains(string(outb), "VIOLATION property=C18") {
+		if strings.Contains(string(outb), "VIOLATION property="+*prop) {
 			fmt.Printf("violation: class=%s %s\n", v.Class, v.Msg)
-			fmt.Printf("VIOLATION property=C18 replay=%s\n", v.File)
+			fmt.Printf("VIOLATION property=%s replay=%s\n", *prop, v.File)
 			nViol++
 			exit = 1
 		} else {
@@ -264,7 +290,32 @@ func specialC18(args []string) int {
 	if total.Runs == 0 && exit == 0 {
 		exit = 2
 	}
-	if *evidence != "" {
+	if *evidence != "" && locked {
+		if b, err := os.ReadFile(*evidence); err == nil {
+			var ev map[string]interface{}
+			if json.Unmarshal(b, &ev) == nil {
+				if cov, ok := ev["coverage"].(map[string]interface{}); ok {
+					lockedCalls := map[string]int{}
+					for k, v := range total.Stats {
+						if strings.HasPrefix(k, "locked") || strings.HasPrefix(k, "foreign:") {
+							lockedCalls[k] = v
+						}
+					}
+					cov["generic_entry_points_under_lock"] = map[string]interface{}{
+						"what": "generic MapN/Map/Exchange structural calls (arities 1-12) issued while a query is open in the generic world and in its ID-based twin: refusal parity, lock still held, state unchanged",
+						"runs": total.Runs, "steps": total.Steps, "calls": lockedCalls, "violations": nViol, "wall_s": wall,
+					}
+					if nViol > 0 {
+						if n, ok := ev["violations"].(float64); ok {
+							ev["violations"] = int(n) + nViol
+						}
+					}
+					b, _ = json.MarshalIndent(ev, "", " ")
+					os.WriteFile(*evidence, b, 0o644)
+				}
+			}
+		}
+	} else if *evidence != "" {
 		tr := GenC18Trace(Mix(*seed, 0), thorough)
 		_, r := RunC18(tr)
 		var warnings []string
@@ -297,7 +348,7 @@ func specialC18(args []string) int {
 		os.MkdirAll(filepath.Dir(*evidence), 0o755)
 		os.WriteFile(*evidence, b, 0o644)
 	}
-	fmt.Printf("C18 %s: %d runs, %d steps, %d violations, %.1fs\n", *tier, total.Runs, total.Steps, nViol, wall)
+	fmt.Printf("%s %s (generic driver): %d runs, %d steps, %d violations, %.1fs\n", *prop, *tier, total.Runs, total.Steps, nViol, wall)
 	return exit
 }
 
